@@ -12,7 +12,9 @@ CONFIG = {
                   "C08_witness_b192 is the kernel-checked counter-example for Base192 (open finding C08-F1); its length bound is "
                   "proved. C08_length_exact_b32/_b64/_b64u/_b128 (|encode bs| = ceil(8|bs|/k)) and C08_length_tight_b85/_b91 give "
                   "the lengths without the +8 slack (used by C09's size-budget theorem). The model is tied to the Go code by regenerated facts (alphabets, codes, ratios, registry, substitution "
-                  "pairs, three repaired shapes) and by running Encode/Decode of the real encoders against the model.",
+                  "pairs, three repaired shapes) and by running Encode/Decode of the real encoders against the model. "
+                  "C08_results_independent names what the pair/seq/par ops check on the real encoders: the model's encode/decode "
+                  "are functions of their argument only, so a list of retained encodings decodes input by input.",
     "level_note": "Partial: Base192 ('Y') neither round-trips nor is DNS-safe (recorded, not repaired). Library code "
                   "(encoding/base32, base64, ascii85, mtraver/base91, luci base128.DecodeString) is modelled at algorithm level "
                   "and tied to the real library by the sampled correspondence only; Go's uint/uint32 arithmetic is modelled with "
@@ -21,14 +23,23 @@ CONFIG = {
                   "character); the theorems hold for the repaired code and fail to compile against the unrepaired shapes.",
     "technique": "Lean 4 proof (induction over byte lists, bit-list algebra, simulation invariant) + regenerated facts + "
                  "model/code differential correspondence with a direct round-trip/alphabet/length monitor",
-    "components": [{"name": "codec", "timeout": {"quick": 300, "thorough": 1500}}],
+    "components": [{"name": "codec", "timeout": {"quick": 300, "thorough": 1500}, "model_jobs": 4}],
+    # violation search: the thorough tier is dominated by seed-independent enumerations (all 65 536 two-byte inputs x 8
+    # codecs = 524 288 of ~0.64 M ops, ~2 min of model evaluation), so repeating it with another seed explores almost
+    # nothing new: two more quick seeds (different random/structured content, pair/seq/par inputs), then ONE thorough round
+    "search_plan": ["quick", "quick", "thorough"],
     "rule": "codec: for each of the 8 codecs selected through enc.FromCode: Encode on exhaustively all inputs of length 0-1 "
             "(+144 boundary pairs; thorough: all 65536 pairs), every length 0..600 x 7 content kinds (zeros, 0xFF, repeated byte, "
             "single set bit, counter, random, aligned zero groups/low values), thorough additionally every length 601..4096 with a "
             "rotating structured kind and random content; Decode on in-alphabet strings of every length 0..48, truncated encodings, "
             "encodings with one foreign byte replaced/inserted/appended ('.', '\\\\', space, newline, NUL, 0xff, '=', 'z', DEL, random), "
             "arbitrary bytes and runs of one character; model and code compared on every result (hex or err); non-trivial = non-empty "
-            "input (enc) / non-empty output (dec); distinct = distinct op line",
+            "input (enc) / non-empty output (dec); distinct = distinct op line. Independence of results (per codec): pair = 18x18 "
+            "length pairs (0..8, 13..16, 31, 64, 183, 255, 600; thorough 32x32 up to 4096), seq = 40 (thorough 400) sequences of 3-8 inputs "
+            "(equal lengths / decreasing lengths / mixed / the first input repeated last), par = 6 (thorough 40) runs of 64 goroutines x 32 "
+            "iterations over 2-8 inputs through the shared enc.*Encoding singleton; every result is retained (not copied) across all "
+            "later calls and printed afterwards, so model = code is the independence statement; the monitor also overwrites the "
+            "caller-owned slices (inputs, results up to their capacity) and requires that nothing else moves",
     "trusted_base": COMMON_TB + [
         "model SA.Model.Codec hand-written; Base128Encoder.Encode, escape128/unescape128, Base85 Encode/Decode glue, Base192 and Raw "
         "mirror the repo's code; stdlib base32/base64/ascii85, mtraver/base91 and luci base128 decode are modelled at the level of "
